@@ -13,10 +13,17 @@ with the model SV.C18.Vrp.solve (ALNS loop included: result state and objective)
 Independently of the model (a) a Python oracle written from the contract (partition, no repeat, single-vehicle
 customers on one route, arrival times recomputed from scratch, objective recomputed from the documented weighted
 sum) and (b) the Coq boolean `spec_chk` (sound w.r.t. vrp_spec, C18/VrpSpec.v) judge the implementation's states.
-Which choices are oracle: ALL of them (rng.sample/choice/shuffle answers, worst_removal's cost ranking,
-related/sync nearest neighbours, _insertion_cost feasibility and cheapest position, regret order, set iteration
-order); what is modelled as code: what the operators do with their choices (strip from every route, unassigned
-bookkeeping, partial/full arrival refresh), compute_arrival_times, vrp_objective, the alns accept/best logic.
+Two models, two correspondence lemmas per operator sequence:
+ * vrp_trace  - SV.C18.Vrp.apply_op: ALL choices are oracle (rng answers, worst_removal's cost ranking, related/sync
+   nearest neighbours, _insertion_cost feasibility and cheapest position, regret order, set iteration order); modelled
+   as code: what the operators do with their choices (strip from every route, unassigned bookkeeping, partial/full
+   arrival refresh), compute_arrival_times, vrp_objective, the alns accept/best logic.  A disagreement here means the
+   BOOKKEEPING changed.
+ * vrp_choice - SV.C18.VrpChoice.apply_fop: the choices are COMPUTED as vrp.py computes them (pure integer arithmetic
+   on these instances); oracle is only what comes from outside the operator: rng.sample / choice / shuffle answers,
+   rng.random() as the candidate index it selects in worst_removal, the iteration order of the Python set `unassigned`
+   (logged by a set subclass), n_remove (float arithmetic on `degree`).  A disagreement only here means a heuristic
+   (cost ranking, feasibility test, tie-break) changed while the bookkeeping model still agrees.
 """
 import json
 import random as _random
@@ -25,7 +32,7 @@ from math import isqrt
 from harness.core import COQ, VERIF, Ctx, cbool, clist, cnat, copt, cz, guarded, pmap
 
 ANCHORS = ["solvor/vrp.py", "solvor/lns.py"]
-IMPORTS = "From SV Require Import C18.Vrp C18.VrpSpec."
+IMPORTS = "From SV Require Import C18.Vrp C18.VrpSpec C18.VrpChoice."
 
 REMOVALS = ["random_removal", "worst_removal", "related_removal", "route_removal", "sync_removal"]
 INSERTIONS = ["greedy_insertion", "regret_insertion", "sync_aware_insertion"]
@@ -182,36 +189,52 @@ def canon_num(x):
 
 
 def snapshot(st):
-    return {"routes": [[int(c) for c in r] for r in st.routes], "unassigned": sorted(int(c) for c in st.unassigned),
+    return {"routes": [[int(c) for c in r] for r in st.routes], "unassigned": sorted(int(c) for c in set(st.unassigned)),
             "arrivals": [[canon_num(t) for t in a] for a in st.arrival_times]}
 
 
 # ---------------------------------------------------------------- recording machinery (no source change)
 class _Sink:
-    ins = []   # (customer, vehicle, pos, route length before) per routes[v].insert
-    rng = []   # ("sample"|"choice"|"shuffle", answer)
+    ins = []    # (customer, vehicle, pos, route length before) per routes[v].insert
+    rng = []    # ("sample"|"choice"|"shuffle"|"random", answer)
+    iters = []  # iteration orders of the set `unassigned`, one per `for ... in state.unassigned` / list(...)
     depth = 0
-    records = None
-    keep = None
 
 
-class RecRandom(_random.Random):
-    """random.Random with the answers of sample / choice / shuffle logged (random() is NOT overridden: that would
-    switch CPython's _randbelow to another algorithm and change the stream)."""
+class RecRandom:
+    """What the operators and alns use of a random.Random - sample / choice / shuffle / random - delegated to a real
+    Random(seed) (same stream as without recording) with every answer logged."""
+
+    def __init__(self, seed=None):
+        self._r = _random.Random(seed)
 
     def sample(self, population, k, **kw):
-        r = super().sample(population, k, **kw)
+        r = self._r.sample(population, k, **kw)
         _Sink.rng.append(("sample", [int(x) for x in r]))
         return r
 
     def choice(self, seq):
-        r = super().choice(seq)
+        r = self._r.choice(seq)
         _Sink.rng.append(("choice", int(r) if isinstance(r, int) else r))
         return r
 
     def shuffle(self, x):
-        super().shuffle(x)
+        self._r.shuffle(x)
         _Sink.rng.append(("shuffle", list(x)))
+
+    def random(self):
+        r = self._r.random()
+        _Sink.rng.append(("random", r))
+        return r
+
+
+class RecSet(set):
+    """`unassigned` with its iteration order logged (Python-level iteration only: `for c in s`, list(s), comprehensions)."""
+
+    def __iter__(self):
+        order = list(set.__iter__(self))
+        _Sink.iters.append([int(c) for c in order])
+        return iter(order)
 
 
 class RecList(list):
@@ -240,7 +263,7 @@ def rec_state_class(vrp):
                 rl.veh = v
                 routes.append(rl)
             return RecState(customers=s.customers, vehicles=s.vehicles, routes=routes, arrival_times=s.arrival_times,
-                            unassigned=s.unassigned, sync_assignments=s.sync_assignments, _dist=s._dist)
+                            unassigned=RecSet(s.unassigned), sync_assignments=s.sync_assignments, _dist=s._dist)
 
     _REC_CLS[base] = RecState
     return RecState
@@ -248,13 +271,42 @@ def rec_state_class(vrp):
 
 def call_op(vrp, orig, name, st, rng, args):
     """Run one exported operator, return (new_state, record)."""
-    _Sink.ins, _Sink.rng = [], []
+    _Sink.ins, _Sink.rng, _Sink.iters = [], [], []
     pre = snapshot(st)
     new = orig(st, rng, *args)
     post = snapshot(new)
-    rec = {"op": name, "args": list(args), "pre": pre, "post": post, "oracle": derive(name, pre, post, st.customers)}
-    _Sink.ins, _Sink.rng = [], []
+    rec = {"op": name, "args": list(args), "pre": pre, "post": post, "oracle": derive(name, pre, post, st.customers),
+           "foracle": derive_f(name, pre, post, args)}
+    _Sink.ins, _Sink.rng, _Sink.iters = [], [], []
     return new, rec
+
+
+def derive_f(name, pre, post, args):
+    """What the operator got from OUTSIDE (rng answers, set iteration orders, n_remove), for the choice-computing
+    model SV.C18.VrpChoice.apply_fop."""
+    diff = sorted(set(post["unassigned"]) - set(pre["unassigned"]))
+    samples = [r for k, r in _Sink.rng if k == "sample"]
+    choices = [r for k, r in _Sink.rng if k == "choice"]
+    shuffles = [r for k, r in _Sink.rng if k == "shuffle"]
+    randoms = [r for k, r in _Sink.rng if k == "random"]
+    iters = [list(o) for o in _Sink.iters]
+    if name == "random_removal":
+        return {"sample": samples[0] if samples else []}
+    if name == "worst_removal":
+        n = sum(len(r) for r in pre["routes"])
+        # idx = min(int(p * len(candidates)), len(candidates) - 1) with p = rng.random() ** 2, one candidate popped per draw
+        return {"idxs": [min(int(p ** 2 * (n - j)), n - j - 1) for j, p in enumerate(randoms)]}
+    if name == "related_removal":
+        return {"nrem": len(diff), "seed": choices[0] if choices else 0}
+    if name == "route_removal":
+        return {"vs": samples[0] if samples else []}
+    if name == "sync_removal":
+        return {"target": choices[0] if choices else 0, "sample": samples[0] if samples else []}
+    if name == "greedy_insertion":
+        return {"order": shuffles[0] if shuffles else []}
+    if name == "regret_insertion":
+        return {"k": args[0] if args else 2, "orders": iters}
+    return {"order": iters[1] if len(iters) > 1 else [], "orders": iters[2:]}
 
 
 def derive(name, pre, post, customers):
@@ -584,6 +636,31 @@ def c_op(rec):
     return f"SyncAwareInsertion {mevs} {c_evs(o['evs'])}"
 
 
+def c_fop(rec):
+    name, o = rec["op"], rec["foracle"]
+    ll = lambda xs: clist(xs, lambda x: clist(x, cnat))  # noqa: E731
+    if name == "random_removal":
+        return f"FRandomRemoval {clist(o['sample'], cnat)}"
+    if name == "worst_removal":
+        return f"FWorstRemoval {clist(o['idxs'], cnat)}"
+    if name == "related_removal":
+        return f"FRelatedRemoval {cnat(o['nrem'])} {cnat(o['seed'])}"
+    if name == "route_removal":
+        return f"FRouteRemoval {clist(o['vs'], cnat)}"
+    if name == "sync_removal":
+        return f"FSyncRemoval {cnat(o['target'])} {clist(o['sample'], cnat)}"
+    if name == "greedy_insertion":
+        return f"FGreedyInsertion {clist(o['order'], cnat)}"
+    if name == "regret_insertion":
+        return f"FRegretInsertion {cnat(o['k'])} {ll(o['orders'])}"
+    return f"FSyncAwareInsertion {clist(o['order'], cnat)} {ll(o['orders'])}"
+
+
+def c_ftrace_case(case, out):
+    steps = clist([s for s in out["steps"] if s["post"] is not None], lambda s: f"({c_fop(s)}, {c_state(s['post'])})")
+    return f"({c_inst(case['inst'])}, {c_state(out['init'])}, {steps})"
+
+
 def c_trace_case(case, out):
     steps = clist([s for s in out["steps"] if s["post"] is not None], lambda s: f"({c_op(s)}, {c_state(s['post'])})")
     return f"({c_inst(case['inst'])}, {c_state(out['init'])}, {steps})"
@@ -711,13 +788,14 @@ def run_part(ctx: Ctx):
     corpus = _corpus()
     seq_cases = [c for c in corpus if c["kind"] == "vrp_seq"] + [json.loads(json.dumps(c)) for c in FIXED]
     solve_cases = [c for c in corpus if c["kind"] == "vrp_solve"]
-    seq_cases += [gen_seq_case(ctx.rng, big) for _ in range(ctx.budget(160, 2500))]
-    solve_cases += [gen_solve_case(ctx.rng, big) for _ in range(ctx.budget(90, 1200))]
+    seq_cases += [gen_seq_case(ctx.rng, big) for _ in range(ctx.budget(130, 2500))]
+    solve_cases += [gen_solve_case(ctx.rng, big) for _ in range(ctx.budget(80, 1200))]
+    spec_budget = ctx.budget(2500, 20000)  # implementation states handed to the Coq checker spec_chk
 
     seq_outs = pmap(run_seq, seq_cases)
     solve_outs = pmap(run_solve, solve_cases)
 
-    trace_terms, trace_meta, spec_terms, spec_meta = [], [], [], []
+    trace_terms, trace_meta, spec_terms, spec_meta, ftrace_terms = [], [], [], [], []
     n_viol = 0
     for case, out in zip(seq_cases, seq_outs):
         ctx.evaluations += len(out["steps"])
@@ -756,10 +834,11 @@ def run_part(ctx: Ctx):
         if out["init"] is None or not all(snap_ok(s["post"]) for s in good):
             continue
         trace_terms.append(c_trace_case(case, out))
+        ftrace_terms.append(c_ftrace_case(case, out))
         trace_meta.append((case, out))
         ctx.traces_validated += 1
         for s in good:
-            if isinstance(s.get("obj"), int):
+            if isinstance(s.get("obj"), int) and len(spec_terms) < spec_budget:
                 spec_terms.append(c_spec_case(inst, case["weights"], s["post"], s["obj"]))
                 spec_meta.append((case, s))
 
@@ -794,6 +873,8 @@ def run_part(ctx: Ctx):
 
     f_trace = ctx.coq_check("vrp_trace", IMPORTS, "trace_case",
                             "fun c => st_eqb (init_state (fst (fst c))) (snd (fst c)) && trace_chk c", trace_terms, shard=40)
+    f_choice = ctx.coq_check("vrp_choice", IMPORTS, "ftrace_case",
+                             "fun c => st_eqb (init_state (fst (fst c))) (snd (fst c)) && ftrace_chk c", ftrace_terms, shard=40)
     f_solve = ctx.coq_check("vrp_solve", IMPORTS, "solve_case", "solve_chk", solve_terms, shard=25)
     f_spec = ctx.coq_check("vrp_spec", IMPORTS, "spec_case", "spec_chk", spec_terms, shard=400)
     for i in f_spec:
@@ -802,12 +883,13 @@ def run_part(ctx: Ctx):
                       "Python oracle accepts it", {**case, "state": s["post"], "objective": s["obj"], "after": s["op"],
                                                    "lemma": "Cases/C18/vrp_spec_*.v corr"}, no_input=True)
 
-    disagree = [("trace", trace_meta[i]) for i in f_trace] + [("solve", solve_meta[i]) for i in f_solve]
+    disagree = [("trace", trace_meta[i]) for i in f_trace] + [("solve", solve_meta[i]) for i in f_solve] + \
+        [("choice", trace_meta[i]) for i in f_choice if i not in set(f_trace)]
     if (disagree or ctx.broken) and not any(not v["no_input"] for v in ctx.violations):
         found = False
         pool = [gen_seq_case(ctx.rng, True) for _ in range(3000)]
         for kind, (case, _o) in disagree[:10]:
-            if kind == "trace":
+            if kind in ("trace", "choice"):
                 for _ in range(60):  # neighbours: same instance, other seeds / plans
                     pool.append({**json.loads(json.dumps(case)), "seed": ctx.rng.randrange(10**6), "plan": gen_plan(ctx.rng, 30)})
         for case, out in zip(pool, pmap(run_seq, pool)):
@@ -827,7 +909,14 @@ def run_part(ctx: Ctx):
                     break
         if not found:
             for kind, (case, out) in disagree[:1]:
-                if kind == "trace":
+                if kind == "choice":
+                    k_bad, model = _first_disagreeing_step(ctx, case, out, faithful=True)
+                    ctx.violation("correspondence lemma vrp_choice: the choice-computing model SV.C18.VrpChoice.apply_fop and the "
+                                  "implementation's operator differ (which customers / positions are chosen: cost ranking, feasibility "
+                                  "test, tie-break), while the bookkeeping model (vrp_trace) still agrees",
+                                  {**case, "step": k_bad, "impl_step": out["steps"][k_bad] if k_bad is not None else None,
+                                   "model": model, "lemma": "Cases/C18/vrp_choice_*.v corr"}, no_input=True)
+                elif kind == "trace":
                     k_bad, model = _first_disagreeing_step(ctx, case, out)
                     ctx.violation("correspondence lemma vrp_trace: model SV.C18.Vrp.apply_op and the implementation's operator differ "
                                   "(observable: routes, unassigned, arrival_times after the operator; or a choice fails the model's guard)",
@@ -844,20 +933,27 @@ def run_part(ctx: Ctx):
         "equals the exact integer matrix, i.e. float hypot is exact on these), integer time windows / service times / demands / "
         "weights, so every float operation of vrp.py is exact and the model computes in Z; rounding is outside the theorems",
         "vrp: customer ids are 1..n in list order (vrp.py indexes `customers` by id; the docstring example does the same)",
-        "vrp: ALL choices of the operators are oracle arguments recorded from the real run (rng.sample/choice/shuffle answers via a "
-        "Random subclass, insert(pos, cid) calls via a VRPState subclass whose copy() hands out logging lists, removed sets by "
-        "before/after difference); the model checks the guards of the choices and models what is done with them; "
-        "worst_removal's ranking, _insertion_cost and the regret order are NOT re-derived in the model",
+        "vrp model 1 (C18/Vrp.v, lemma vrp_trace, theorems C18_vrp_inv*): ALL choices of the operators are oracle arguments recorded "
+        "from the real run (rng answers via a delegating proxy around random.Random, insert(pos, cid) calls via a VRPState subclass "
+        "whose copy() hands out logging lists, removed sets by before/after difference); the model checks the guards of the choices "
+        "and models what is done with them",
+        "vrp model 2 (C18/VrpChoice.v, lemma vrp_choice, theorems C18_vrp_inv_computed_choices, C18_vrp_*_total): the choices are "
+        "computed as in vrp.py (worst_removal ranking, related/sync nearest neighbours, _insertion_cost incl. its reading of stale "
+        "arrival times inside sync_aware_insertion, cheapest position, regret-k, vehicle selection); oracle = rng.sample/choice/shuffle "
+        "answers, the candidate index selected by rng.random()**2 in worst_removal (computed by the harness from the logged draw with "
+        "the code's formula), iteration orders of the set `unassigned` (logged by a set subclass), n_remove of related_removal "
+        "(taken as the number of customers actually removed)",
         "vrp: sync_assignments is not modelled (nothing reads it); on_progress is not exercised in the VRP runs",
         "vrp: alns acceptance answers are recovered from object identity (the next destroy operator received this candidate)",
     ]
 
 
-def _first_disagreeing_step(ctx, case, out):
+def _first_disagreeing_step(ctx, case, out, faithful=False):
     good = [s for s in out["steps"] if s["post"] is not None]
     prev = out["init"]
     for k, s in enumerate(good):
-        term = f"match apply_op {c_inst(case['inst'])} ({c_op(s)}) {c_state(prev)} with Some s => (st_eqb s {c_state(s['post'])}, Some s) | None => (false, None) end"
+        ap = f"apply_fop {c_inst(case['inst'])} ({c_fop(s)})" if faithful else f"apply_op {c_inst(case['inst'])} ({c_op(s)})"
+        term = f"match {ap} {c_state(prev)} with Some s => (st_eqb s {c_state(s['post'])}, Some s) | None => (false, None) end"
         txt = ctx.coq_eval(f"vrp_show_{k}", IMPORTS, term)
         if "(true," not in txt.replace("\n", " "):
             return k, txt[-1500:]
